@@ -213,9 +213,12 @@ func (server *Server) LRange(conn *redis.Conn, key string, start int, stop int) 
 		return nil, err
 	}
 
-	_, list, err := db.GetListRecord(key)
+	_, list, err := db.FindListRecord(key)
 	if err != nil {
 		return nil, err
+	}
+	if list == nil {
+		list = NewList()
 	}
 
 	elems := list.Range(start, stop)
@@ -234,9 +237,12 @@ func (server *Server) LIndex(conn *redis.Conn, key string, idx int) (*redis.Mess
 		return nil, err
 	}
 
-	_, list, err := db.GetListRecord(key)
+	_, list, err := db.FindListRecord(key)
 	if err != nil {
 		return nil, err
+	}
+	if list == nil {
+		list = NewList()
 	}
 
 	elem, ok := list.Index(idx)
@@ -253,9 +259,12 @@ func (server *Server) LLen(conn *redis.Conn, key string) (*redis.Message, error)
 		return nil, err
 	}
 
-	_, list, err := db.GetListRecord(key)
+	_, list, err := db.FindListRecord(key)
 	if err != nil {
 		return nil, err
+	}
+	if list == nil {
+		list = NewList()
 	}
 
 	return redis.NewIntegerMessage(list.Len()), nil
